@@ -458,3 +458,27 @@ pub fn spine(v: &RVal) -> Vec<crate::ops::KP> {
 pub fn d3e_uni() -> Uni {
     Uni::new(vec![RVal::s(""), RVal::u(1)], vec!["a"], 2, 3)
 }
+
+/// objects over 9 keys whose byte order, length order and case-folded order all differ
+/// ("" < "A" < "a" < "aa" < "ab" < "b" < "ba" < "z" < "é"; lengths 0,1,1,2,2,1,2,1,2), every subset
+/// of <= 3 keys, values distinct and of different widths
+pub const ORDER_KEYS: [&str; 9] = ["", "A", "a", "aa", "ab", "b", "ba", "z", "é"];
+
+pub fn keyorder_docs() -> Vec<RVal> {
+    let vals = [RVal::u(1), RVal::s("two"), RVal::Null, RVal::arr(vec![RVal::u(3)]), RVal::u(70000), RVal::obj(vec![("k", RVal::Null)]), RVal::f(1.5), RVal::s(""), RVal::Bool(true)];
+    let mut out = vec![];
+    let n = ORDER_KEYS.len();
+    for mask in 1u32..(1 << n) {
+        if mask.count_ones() > 3 {
+            continue;
+        }
+        let mut m = std::collections::BTreeMap::new();
+        for i in 0..n {
+            if mask & (1 << i) != 0 {
+                m.insert(ORDER_KEYS[i].to_string(), vals[(i + mask as usize) % vals.len()].clone());
+            }
+        }
+        out.push(RVal::Obj(m));
+    }
+    out
+}
